@@ -3,6 +3,7 @@ CONSTANTS
   Keys = {"kH", "kV", "kA"}
   AttKeys = {"kA"}
   Fams = {"peer", "rsvp", "test"}
+  PrimaryFams = {"peer", "rsvp", "test"}
   Bodies = {1, 2}
   MaxEdits = 2
   Variant = "code"
